@@ -23,6 +23,7 @@ def run(repo, res, tier):
     an = langrules.analyse(repo)
     langrules.rule_tb8(repo, res, an)
     langrules.rule_lex1(repo, res, an)
+    langrules.rule_q1(repo, res, an)
     langrules.rule_n1(repo, res, an)
     pan = parserules.analyse(repo)
     t6 = parserules.add_rule(res, pan, "T6")
